@@ -5,4 +5,5 @@ CONSTANTS
   FullOps = "reps"
   AllAtomsUpTo = 1
   DefaultFrom = 99
+  OpsFrom = 99
 INVARIANTS SpineOK FullOK Emit
